@@ -141,26 +141,54 @@ def kind_of(e, base):
     return e[1]
 
 
-def go(e):
+class Style:
+    """how an expression is rendered as Go source.
+    prefix 't': the numeric types are aliases of the predeclared types; 'd': DEFINED types (type dInt64 int64).
+    leaf 'plain': operands are the parameters x, y;  'index': every operand occurrence is an element expression on a local
+    array whose index has a side effect (`ax[pick(&c[N])]`: yields x when evaluated once, the other value when the
+    compiler evaluates the operand expression a second time);  'field': a field of a local struct (`sx.f`);
+    'call': a call (`fx()`) that counts its evaluations the same way."""
+    def __init__(self, prefix="t", leaf="plain"):
+        self.prefix, self.leaf, self.n = prefix, leaf, 0
+
+    def var(self, name):
+        if self.leaf == "plain":
+            return name
+        if self.leaf == "field":
+            return "s%s.f" % name
+        i = self.n
+        self.n += 1
+        if self.leaf == "index":
+            return "a%s[pick(&c[%d])]" % (name, i)
+        if self.leaf == "map":
+            return "m%s[pick(&c[%d])]" % (name, i)
+        return "once(&c[%d], %s, %s)" % (i, name, "y" if name == "x" else "x")
+
+
+def go(e, st=None):
+    st = st or Style()
     t = e[0]
     if t == "X":
-        return "x"
+        return st.var("x")
     if t == "Y":
-        return "y"
+        return st.var("y")
     if t == "K":
-        return "t%s(%d)" % (e[1], e[2])
+        return "%s%s(%d)" % (st.prefix, e[1], e[2])
     if t == "Bin":
-        return "(%s %s %s)" % (go(e[3]), BINSYM[e[2]], go(e[4]))
+        a = go(e[3], st)
+        return "(%s %s %s)" % (a, BINSYM[e[2]], go(e[4], st))
     if t == "Cmp":
-        return "b2i%s(%s %s %s)" % (e[5], go(e[3]), CMPSYM[e[2]], go(e[4]))
+        a = go(e[3], st)
+        return "b2i%s%s(%s %s %s)" % (st.prefix, e[5], a, CMPSYM[e[2]], go(e[4], st))
     if t == "Un":
-        return "(%s%s)" % (UNSYM[e[2]], go(e[3]))
+        return "(%s%s)" % (UNSYM[e[2]], go(e[3], st))
     if t == "ShV":
-        return "(%s %s %s)" % (go(e[3]), SHSYM[e[2]], go(e[4]))
+        a = go(e[3], st)
+        return "(%s %s %s)" % (a, SHSYM[e[2]], go(e[4], st))
     if t == "ShC":
-        return "(%s %s %d)" % (go(e[4]), SHSYM[e[2]], e[3])
+        return "(%s %s %d)" % (go(e[4], st), SHSYM[e[2]], e[3])
     if t == "Conv":
-        return "t%s(%s)" % (e[2], go(e[3]))
+        return "%s%s(%s)" % (st.prefix, e[2], go(e[3], st))
     raise ValueError(e)
 
 
@@ -256,7 +284,8 @@ def shape_exprs(k, r, quick):
                 es.append(("Bin", k, o, ("X",), ("K", k, c)))
             es.append(("Bin", k, o, ("K", k, c), ("Y",)))
     for cm in CMPSYM:
-        for c in consts(k, r, 1 if quick else 3):
+        forced = [r.choice([-1, -2, kmin(k), -3])] if k in SIGNED else [kmax(k)]
+        for c in forced + consts(k, r, 1 if quick else 3):
             es.append(("Cmp", k, cm, ("X",), ("K", k, c), k))
             es.append(("Cmp", k, cm, ("K", k, c), ("Y",), k))
     for s in SHSYM:
@@ -314,16 +343,27 @@ GO_ALIAS_NATIVE = dict(GO_ALIAS_JS, Int="int32", Uint="uint32", Uintptr="uint32"
 
 
 def program(base, sections, native):
-    """sections: list of (exprs, grid).  One row per (expression, x): `<section> <expr index> <x index>: r r r ...`"""
+    """sections: list of (exprs, grid, prefix, leaf).  One row per (expression, x): `<section> <expr index> <x index>: r r r ...`"""
     alias = GO_ALIAS_NATIVE if native else GO_ALIAS_JS
     L = ["package main", "", 'import "math"', ""]
     for k in KINDS:
-        L.append("type t%s = %s" % (k, alias[k]))
-    L.append("type T = t%s" % base)
+        L.append("type t%s = %s" % (k, alias[k]))        # aliases of the predeclared types
+        L.append("type d%s %s" % (k, alias[k]))          # defined types with the same underlying type
     L.append("")
     for k in KINDS:
-        L.append("func b2i%s(b bool) t%s {\n\tif b {\n\t\treturn 1\n\t}\n\treturn 0\n}" % (k, k))
+        for pf in "td":
+            L.append("func b2i%s%s(b bool) %s%s {\n\tif b {\n\t\treturn 1\n\t}\n\treturn 0\n}" % (pf, k, pf, k))
     L.append("""
+// pick yields 0 the first time it is called on a counter and 1 afterwards: an operand `a[pick(&c)]` is x when the
+// operand expression is evaluated once (as Go requires) and the other value when it is evaluated again.
+func pick(c *int) int {
+	*c++
+	if *c == 1 {
+		return 0
+	}
+	return 1
+}
+
 func fmtf(f float64) string {
 	if f == 0 {
 		if 1/f < 0 {
@@ -349,42 +389,60 @@ func fmtf(f float64) string {
 	}
 	return string(buf[i:])
 }
-
-func call(f func(x, y T) string, x, y T) (r string) {
+""")
+    fi = 0
+    for si, (exprs, grid, prefix, leaf) in enumerate(sections):
+        T = "%s%s" % (prefix, base)
+        L.append("""func once%d(c *int, a, b %s) %s {
+	*c++
+	if *c == 1 {
+		return a
+	}
+	return b
+}
+func call%d(f func(x, y %s) string, x, y %s) (r string) {
 	defer func() {
 		if recover() != nil {
 			r = "P"
 		}
 	}()
 	return f(x, y)
-}
-""")
-    fi = 0
-    tables = []
-    for si, (exprs, grid) in enumerate(sections):
+}""" % (si, T, T, si, T, T))
         names = []
         for e in exprs:
             rk = kind_of(e, base)
+            st = Style(prefix, leaf)
+            src = go(e, st)
+            if leaf == "call":
+                src = src.replace("once(", "once%d(" % si)
+            pre = ""
+            if leaf in ("index", "map", "call"):
+                pre += "var c [%d]int\n\t_ = c\n\t" % max(1, st.n)
+            if leaf == "index":
+                pre += "ax := [2]%s{x, y}\n\tay := [2]%s{y, x}\n\t_, _ = ax, ay\n\t" % (T, T)
+            if leaf == "map":
+                pre += "mx := map[int]%s{0: x, 1: y}\n\tmy := map[int]%s{0: y, 1: x}\n\t_, _ = mx, my\n\t" % (T, T)
+            if leaf == "field":
+                pre += "sx := struct{ f %s }{x}\n\tsy := struct{ f %s }{y}\n\t_, _ = sx, sy\n\t" % (T, T)
             if BITS[rk] == 64:
-                body = "r := %s\n\treturn fmtf(float64(uint32(r>>32))) + \":\" + fmtf(float64(uint32(r)))" % go(e)
+                body = "%sr := %s\n\treturn fmtf(float64(uint32(r>>32))) + \":\" + fmtf(float64(uint32(r)))" % (pre, src)
             else:
-                body = "r := %s\n\treturn fmtf(float64(r))" % go(e)
-            L.append("func e%d(x, y T) string {\n\t%s\n}" % (fi, body))
+                body = "%sr := %s\n\treturn fmtf(float64(r))" % (pre, src)
+            L.append("func e%d(x, y %s) string {\n\t%s\n}" % (fi, T, body))
             names.append("e%d" % fi)
             fi += 1
-        L.append("var fns%d = []func(x, y T) string{%s}" % (si, ", ".join(names)))
-        L.append("var grid%d = []T{%s}" % (si, ", ".join(str(v) for v in grid)))
-        tables.append(si)
+        L.append("var fns%d = []func(x, y %s) string{%s}" % (si, T, ", ".join(names)))
+        L.append("var grid%d = []%s{%s}" % (si, T, ", ".join(str(v) for v in grid)))
     L.append("\nfunc main() {")
-    for si in tables:
+    for si in range(len(sections)):
         L.append("""	for i, f := range fns%d {
 		for xi, x := range grid%d {
 			s := "%d " + fmtf(float64(i)) + " " + fmtf(float64(xi)) + ":"
 			for _, y := range grid%d {
-				s += " " + call(f, x, y)
+				s += " " + call%d(f, x, y)
 			}
 			println(s)
 		}
-	}""" % (si, si, si, si))
+	}""" % (si, si, si, si, si))
     L.append("}")
     return "\n".join(L) + "\n"
